@@ -112,7 +112,7 @@ def run(ctx, rep):
     # ---- C02.c -------------------------------------------------------------------------------------
     DP = prog.find1(r"^rustic_core::commands::prune::PrunePlan::decide_packs$")
     st = [(bb, t) for bb, t in DP.calls() if "callee" in t and callee(t).endswith("prune::PrunePack::set_todo")]
-    rep.floor("C02.c", "set_todo sites in decide_packs", len(st), 8)
+    rep.floor("C02.c", "set_todo sites in decide_packs", len(st), 3)
     ordn = {}
     def todo_alternatives(bb, t):
         """[(variant, [blocks whose control conditions apply])]: the decision is either a literal variant or a local
